@@ -15,8 +15,8 @@ M = [
  ("C02", "drop-leap11-2033", "calendar/LunarYear.go", "1642, 2033, 2128", "1642, 2128", "2033 loses its explicit leap-11"),
  ("C02", "leap-search-strict", "calendar/LunarYear.go", "if hs[i+1] <= jq[2*i] {", "if hs[i+1] < jq[2*i] {", "month starting on its major-term day"),
  ("C03", "next-term-inclusive", "calendar/Lunar.go", "\t\t\tif strings.Compare(day, today) <= 0 {\n\t\t\t\tcontinue\n\t\t\t}", "\t\t\tif strings.Compare(day, today) < 0 {\n\t\t\t\tcontinue\n\t\t\t}", "next term returns the term at the query instant itself"),
- ("C03", "one-third", "ShouXingUtil/ShouXingUtil.go", "var ONE_THIRD = float64(1) / 3", "var ONE_THIRD = 0.3", "time zone shift 7.2 h instead of 8 h"),
- ("C03", "qiaccurate2-threshold", "ShouXingUtil/ShouXingUtil.go", "if a-jd > 5 {", "if a-jd > 25 {", "wrong neighbour term accepted"),
+ ("C03", "one-third", "ShouXingUtil/ShouXingUtil.go", "const ONE_THIRD = float64(1) / 3", "const ONE_THIRD = 0.3", "time zone shift 7.2 h instead of 8 h"),
+ ("C03", "qiaccurate2-threshold", "ShouXingUtil/ShouXingUtil.go", "\tif a-jd > 5 {\n\t\treturn QiAccurate(w - d)\n\t}\n\tif a-jd < -5 {", "\tif a-jd > 4 {\n\t\treturn QiAccurate(w - d)\n\t}\n\tif a-jd < -4 {", "estimate more than 4 days off jumps to the next term (years 57..444 only); 5 -> 25 is an equivalent mutant: |a-jd| never exceeds 4.95"),
  ("C04", "gregorian-switch-constant", "SolarUtil/SolarUtil.go", ">= 588829 {", ">= 588830 {", "1582-10-15 treated as Julian"),
  ("C04", "nextday-negative-boundary", "calendar/Solar.go", "for d+days <= 0 {", "for d+days < 0 {", "stepping back exactly to day 0"),
  ("C04", "leap-rule-1700", "SolarUtil/SolarUtil.go", "if year < 1600 {", "if year < 1800 {", "1700 treated as a leap year"),
@@ -24,7 +24,7 @@ M = [
  ("C05", "day-pillar-offset", "calendar/Lunar.go", "offset := int(noon.GetJulianDay() - 11)", "offset := int(noon.GetJulianDay() - 10)", "day pillar shifted by one"),
  ("C05", "late-rat-from-2259", "calendar/Lunar.go", 'strings.Compare(hm, "23:00") >= 0', 'strings.Compare(hm, "22:59") >= 0', "22:59 already counted as next day"),
  ("C05", "month-boundary-exclusive", "calendar/Lunar.go", "if strings.Compare(ymdhms, stime) >= 0 && strings.Compare(ymdhms, end.ToYmdHms()) < 0 {", "if strings.Compare(ymdhms, stime) > 0 && strings.Compare(ymdhms, end.ToYmdHms()) < 0 {", "exact month pillar wrong at the Jie instant itself"),
- ("C06", "next-rest-inclusive", "calendar/LunarMonth.go", "if rest < more {", "if rest <= more {", "forward month walk ending exactly at a table end"),
+ ("C06", "next-more-overcount", "calendar/LunarMonth.go", "more := size - index - 1", "more := size - index", "forward month walk crossing a table end loses one step ('rest < more -> <=' and 'rest <= index -> <' are equivalent mutants because adjacent tables overlap)"),
  ("C06", "leap12-drop-3358", "calendar/LunarYear.go", "1574, 3358, 3472", "1574, 3472", "year 3358 loses its explicit leap-12"),
  ("C07", "gap-upper-bound", "calendar/Solar.go", "\t\tif day > 4 && day < 15 {\n\t\t\tpanic(fmt.Sprintf(\"wrong solar year %v month %v day %v\", year, month, day))", "\t\tif day > 4 && day < 14 {\n\t\t\tpanic(fmt.Sprintf(\"wrong solar year %v month %v day %v\", year, month, day))", "1582-10-14 accepted"),
  ("C07", "lunar-day-inclusive", "calendar/Lunar.go", "if lunarDay > days {", "if lunarDay > days+1 {", "day 30 accepted in a 29-day month"),
